@@ -19,7 +19,7 @@
 
 use flagset::{flags, FlagSet};
 use futures::{future::Fuse, future::FutureExt};
-use std::collections::{HashMap, HashSet};
+use std::collections::{HashMap, HashSet, VecDeque};
 use std::fmt;
 use std::net::IpAddr;
 use std::ops::Drop;
@@ -570,7 +570,8 @@ pub(crate) struct ConnState {
     pub(super) timeout_sender: Arc<UnboundedSender<()>>,
     // timeout_receiver - process method receives that
     pub(super) timeout_receiver: UnboundedReceiver<()>,
-    pub(super) pong_notifier: Option<oneshot::Sender<()>>,
+    // notifiers of the PINGs that are not answered yet (oldest first).
+    pub(super) pong_notifier: VecDeque<oneshot::Sender<()>>,
     // quit receiver - receive KILL from other user.
     pub(super) quit_receiver: Fuse<oneshot::Receiver<(String, String)>>,
     // quit_sender - quit sender to send KILL - sender will be later taken after
@@ -613,7 +614,7 @@ impl ConnState {
             ping_receiver,
             timeout_sender: Arc::new(timeout_sender),
             timeout_receiver,
-            pong_notifier: None,
+            pong_notifier: VecDeque::new(),
             quit_sender: Some(quit_sender),
             quit_receiver: quit_receiver.fuse(),
             #[cfg(feature = "dns_lookup")]
@@ -644,13 +645,10 @@ impl ConnState {
 
     // run pong timeout process - that send timeout aftet some time.
     pub(super) fn run_pong_timeout(&mut self, config: &MainConfig) {
-        // if previous PING is still not answered then its timeout is still counted
-        // (next PING must not restart that timeout).
-        if self.pong_notifier.is_some() {
-            return;
-        }
+        // every PING has own timeout: next PING must not restart timeout of the previous PING
+        // and PONG must stop only timeout of the oldest not answered PING.
         let (pong_notifier, pong_receiver) = oneshot::channel();
-        self.pong_notifier = Some(pong_notifier);
+        self.pong_notifier.push_back(pong_notifier);
         tokio::spawn(pong_client_timeout(
             time::timeout(Duration::from_secs(config.pong_timeout), pong_receiver),
             self.quit.clone(),
